@@ -27,6 +27,17 @@ NOVAL = {"v": ABS, "p": ""}
 NOSTR = {"v": "", "p": ""}
 NODEFECT = {"k": "none", "c": 0, "e": 0, "t": 0}
 NOX = {"p": "", "d": ABS, "comma": True}
+# model words that stand for strings with characters that matter to template engines / HTML escaping (the TLC side keeps
+# plain words); applied to every name-like string that is rendered and inverted on every projected string
+REAL = {"n2": "tom & <jerry>'s", "n3": "<logs-{now/d}>", "sup-task": "a<b>&'c'", "b": "b&b"}
+MODEL = {v: k for k, v in REAL.items()}
+TPL_SECTION = {"composable": "composable-templates", "component": "component-templates", "templates": "templates"}
+
+
+def _real(x):
+    return REAL.get(x, x)
+
+
 XSETTING = "my-setting"  # a setting the schema does not constrain
 XCODES = {-2: False, -3: "", -4: True}  # supplied values of macro parameters that are not numbers
 TASK_NUM = ["clients", "wi", "it", "wtp", "tp", "ru", "tput", "bulk"]
@@ -245,11 +256,11 @@ def uses_macro(F):
 def _task_obj(t, d, pos, style):
     o = {}
     if t["opk"] == "str":
-        o["operation"] = t["op"]
+        o["operation"] = _real(t["op"])
     else:
         op = {"operation-type": t["type"]}
         if t["op"]:
-            op["name"] = t["op"]
+            op["name"] = _real(t["op"])
         if _is_set(t["bulk"]):
             op["bulk-size"] = _num(t["bulk"])
         _macro(op, t["xp"])
@@ -258,7 +269,9 @@ def _task_obj(t, d, pos, style):
         o["operation"] = op
     n = t["name"]
     if n != NOSTR:
-        o["name"] = Raw('"{{ %s | default(\'%s\') }}"' % (n["p"], n["v"])) if n["p"] else n["v"]
+        rv = _real(n["v"])
+        # the default is a Jinja string literal inside a JSON string
+        o["name"] = Raw('"{{ %s | default(%s) }}"' % (n["p"], ('"%s"' if "'" in rv else "'%s'") % rv)) if n["p"] else rv
     for k in ("clients", "wi", "it", "wtp", "tp", "ru"):
         if _is_set(t[k]):
             o[KEY[k]] = _num(t[k])
@@ -269,7 +282,7 @@ def _task_obj(t, d, pos, style):
         else:
             o["target-throughput"] = v
     if t["tags"]:
-        o["tags"] = t["tags"][0] if (len(t["tags"]) == 1 and style.get("tag_string")) else list(t["tags"])
+        o["tags"] = _real(t["tags"][0]) if (len(t["tags"]) == 1 and style.get("tag_string")) else [_real(x) for x in t["tags"]]
     if pos == (d["c"], d["e"], d["t"]):
         if d["k"] == "clientsStr":
             o["clients"] = "2"
@@ -288,7 +301,7 @@ def _el_obj(el, d, c, e, style):
         if _is_set(el[k]):
             p[KEY[k]] = _num(el[k])
     if el["cb"]:
-        p["completed-by"] = el["cb"]
+        p["completed-by"] = _real(el["cb"])
     p["tasks"] = [_task_obj(t, d, (c, e, i + 1), style) for i, t in enumerate(el["tasks"])]
     if (d["c"], d["e"]) == (c, e) and d["t"] == 0:
         if d["k"] == "cbNum":
@@ -307,7 +320,7 @@ def _sched(ch, d, c, style):
 
 
 def _chal_obj(ch, d, c, style, rnd):
-    o = {"name": ch["name"], "schedule": _sched(ch, d, c, style)}
+    o = {"name": _real(ch["name"]), "schedule": _sched(ch, d, c, style)}
     if style.get("descriptions") and rnd.random() < 0.5:
         o["description"] = "challenge %d" % c
     if ch["dflt"] != "abs":
@@ -341,7 +354,7 @@ def render(F, root, style=None):
     rnd = random.Random(style["seed"])
     ser = _Ser(rnd, style["shuffle"])
     # keep the directories (removing them is slow on the scratch file system), remove stale files
-    for sub in ("", "operations", "challenges", "corpora", "operations/more", "challenges/schedules", "corpora/docs"):
+    for sub in ("", "operations", "challenges", "corpora", "operations/more", "challenges/schedules", "corpora/docs", "side"):
         dpath = os.path.join(root, sub)
         if os.path.isdir(dpath):
             for fn in os.listdir(dpath):
@@ -355,12 +368,22 @@ def render(F, root, style=None):
     if style["version"]:
         top["version"] = 2
     if style["descriptions"]:
-        top["description"] = "generated by the C10 check"
+        top["description"] = "generated by the C10 check <&> 'quoted' \"too\""
     if F["refs"]:
         # references to Rally's own template variables (inside a string: their values are not JSON numbers)
         top["description"] = Raw('"refers to %s"' % " ".join("{{ %s }}" % q for q in F["refs"]))
     if F["indices"]:
         top["indices"] = [{"name": n} for n in F["indices"]]
+        if _is_set(F["ibody"]):
+            # the first index has a body FILE; its Jinja variables are registered only while the track object is built
+            top["indices"][0]["body"] = "side/index-body.json"
+            files["side/index-body.json"] = ser.dump({"settings": {"index.number_of_shards": _num(F["ibody"]), "index.codec": "best_compression"}})
+    if F["tkind"]:
+        tpl = {"name": "tpl1", "template": "side/template.json"}
+        if F["tkind"] != "component":
+            tpl["index-pattern"] = "logs-*"
+        top[TPL_SECTION[F["tkind"]]] = [tpl]
+        files["side/template.json"] = ser.dump({"template": {"settings": {"number_of_replicas": _num(F["tbody"])}}})
     if F["streams"]:
         top["data-streams"] = [{"name": n} for n in F["streams"]]
     # corpora
@@ -384,7 +407,7 @@ def render(F, root, style=None):
                     elif d["k"] == "countStr":
                         o["document-count"] = "10"
                 docs.append(o)
-            co = {"name": k["name"], "documents": docs}
+            co = {"name": _real(k["name"]), "documents": docs}
             if k["tidx"]:
                 co["target-index"] = k["tidx"]
             if k["tds"]:
@@ -407,7 +430,7 @@ def render(F, root, style=None):
     if F["ops"]:
         os_ = []
         for oi, op in enumerate(F["ops"]):
-            o = {"name": op["name"], "operation-type": op["type"]}
+            o = {"name": _real(op["name"]), "operation-type": op["type"]}
             if _is_set(op["bulk"]):
                 o["bulk-size"] = _num(op["bulk"])
             _macro(o, op["xp"])
@@ -469,7 +492,7 @@ def supplied_params(F):
     for s in F["supN"]:
         params[s["p"]] = XCODES.get(s["v"], s["v"])
     for s in F["supS"]:
-        params[s["p"]] = s["v"]
+        params[s["p"]] = _real(s["v"])
     return params
 
 
@@ -579,7 +602,7 @@ def _s(v):
         return ""
     if not isinstance(v, str):
         return "weird:%r" % (v,)
-    return v
+    return MODEL.get(v, v)
 
 
 def _x(v):
@@ -668,7 +691,26 @@ def project(t):
             )
         corpora.append({"name": _s(k.name), "docs": docs})
     core = {"chals": chals, "corpora": corpora, "indices": [_s(i.name) for i in t.indices], "streams": [_s(d.name) for d in t.data_streams]}
+    # index body file of the first index, template file of the (only) template section
+    body = t.indices[0].body if t.indices else None
+    core["ishards"] = ABS if not body else _i(_dig(body, "settings", "index.number_of_shards"))  # no body file: {}
+    kinds = [(k, lst) for k, lst in (("composable", t.composable_templates), ("component", t.component_templates), ("templates", t.templates)) if lst]
+    if not kinds:
+        core["tkind"], core["treplicas"] = "", ABS
+    elif len(kinds) > 1 or len(kinds[0][1]) != 1:
+        core["tkind"], core["treplicas"] = "weird:several", -99
+    else:
+        core["tkind"] = kinds[0][0]
+        core["treplicas"] = _i(_dig(kinds[0][1][0].content, "template", "settings", "number_of_replicas"))
     return core, extra
+
+
+def _dig(o, *path):
+    for k in path:
+        if not isinstance(o, dict) or k not in o:
+            return "missing"
+        o = o[k]
+    return o
 
 
 def optype_table():
@@ -758,7 +800,7 @@ def _rand_task(rnd, types, opnames, mode, par_mode, noisy):
 def random_file(rnd, types):
     """A random abstract file; mostly valid structure, then with probability 1/2 one random small mutation."""
     noisy = rnd.choice([0.0, 0.0, 0.1, 0.3])
-    F = {"form": rnd.choice(["schedule", "challenge", "challenges", "challenges"]), "chals": [], "ops": [], "corpora": [], "indices": [], "streams": [], "supN": [], "supS": [], "parts": [], "refs": [], "tight": False, "defect": dict(NODEFECT)}
+    F = {"form": rnd.choice(["schedule", "challenge", "challenges", "challenges"]), "chals": [], "ops": [], "corpora": [], "indices": [], "streams": [], "supN": [], "supS": [], "parts": [], "refs": [], "tight": False, "defect": dict(NODEFECT), "ibody": dict(NOVAL), "tkind": "", "tbody": dict(NOVAL)}
     opnames = []
     for _ in range(rnd.choice([0, 1, 2, 3])):
         name = rnd.choice(NAMES[:5]) if rnd.random() < noisy else "op%d" % (len(opnames) + 1)
@@ -779,6 +821,12 @@ def random_file(rnd, types):
         F["streams"] = ["ds1", "ds2"]
     if rnd.random() < noisy / 2:
         F["streams"] = F["streams"] + ["ds3"]
+    # parameters that occur ONLY in an index body file / a template file are frequent in real tracks
+    if F["indices"] and rnd.random() < 0.3:
+        F["ibody"] = _val(rnd, [1, 3, 12], ["number_of_shards", "p1"], pprob=0.7)
+    if rnd.random() < 0.25:
+        F["tkind"] = rnd.choice(["composable", "component", "templates"])
+        F["tbody"] = _val(rnd, [1, 2], ["number_of_replicas", "p2"], pprob=0.7)
     for ki in range(rnd.choice([0, 1, 1, 2])):
         ctidx, ctds, ciaamd = "", "", "abs"
         if F["indices"] and rnd.random() < 0.35:
@@ -907,6 +955,10 @@ def _used_params(F):
     for k in F["corpora"]:
         used.update(d["count"]["p"] for d in k["docs"])
     used.update(F["refs"])
+    if F["indices"]:
+        used.add(F["ibody"]["p"])
+    if F["tkind"]:
+        used.add(F["tbody"]["p"])
     used.discard("")
     return used
 
@@ -983,6 +1035,7 @@ def _mutate(rnd, F):
 def size(F):
     n = len(F["ops"]) + len(F["indices"]) + len(F["streams"]) + len(F["supN"]) + len(F["supS"]) + len(F["parts"]) + len(F["refs"]) + (F["defect"]["k"] != "none")
     n += sum(len(k["docs"]) + bool(k["tidx"]) + bool(k["tds"]) + (k["iaamd"] != "abs") for k in F["corpora"])
+    n += (F["ibody"] != NOVAL) + bool(F["tkind"])
     n += sum(bool(d["tds"]) + (d["iaamd"] != "abs") for k in F["corpora"] for d in k["docs"])
     for ch in F["chals"]:
         n += ch["dflt"] != "abs"
